@@ -2,9 +2,11 @@
 # ./seedtest.sh <patch.diff> <prop> [tier]  — apply a seeded change to /repo, run the check, undo it straight afterwards
 set -u
 P="$1"; PROP="$2"; TIER="${3:-quick}"
+cp "evidence/$PROP.json" "/tmp/evidence-$PROP.keep" 2>/dev/null
 git -C /repo apply "$(realpath "$P")" || exit 9
 ./check "$PROP" --tier "$TIER" > /tmp/seedtest.out 2>&1; RC=$?
 git -C /repo checkout -- .
+[ -f "/tmp/evidence-$PROP.keep" ] && mv "/tmp/evidence-$PROP.keep" "evidence/$PROP.json"
 find /repo -name __pycache__ -path '*mesonbuild*' -prune -exec rm -rf {} + 2>/dev/null
 tail -25 /tmp/seedtest.out | cut -c1-400
 echo "exit=$RC"
